@@ -32,7 +32,8 @@ given by two tables (`pinLine`, `icLine`).  All theorems quantify over ALL block
   `re` semantics of the terminals) — checked by (a), not proved; `float`, NumPy assignment and the Verilog reader are
   exercised, not modelled.
 * **Oracle** (harness/c14.py): the generator's ground-truth array (it placed every value itself) against the real
-  result; this, not the model, decides violations. -/
+  result; this, not the model, decides violations.
+* **Composition with C04/C03** (timing data path, from the SDF text to the WaveSim waveforms): Props/C14Wave.lean. -/
 namespace KV.C14
 open KV.Sdf
 
